@@ -243,10 +243,17 @@ Expression * ParseExpression::factor()
     {
     case TOKEN_KEYWORD:
       if (t->text == Operator::OPVALS[Operator::OP_EXP])
-        return new OpEXPExpression(assertType(result, Type::NUMERIC, p, ctx, false), assertType(factor(), Type::NUMERIC, p, ctx));
+      {
+        /* the left operand is checked before the right one is parsed: the order
+         * of evaluation of constructor arguments is unspecified, and a right
+         * operand parsed first was lost when the check of the left one threw */
+        assertType(result, Type::NUMERIC, p, ctx, false);
+        return new OpEXPExpression(result, assertType(factor(), Type::NUMERIC, p, ctx));
+      }
       break;
     case TOKEN_POWER:
-      return new OpEXPExpression(assertType(result, Type::NUMERIC, p, ctx, false), assertType(factor(), Type::NUMERIC, p, ctx));
+      assertType(result, Type::NUMERIC, p, ctx, false);
+      return new OpEXPExpression(result, assertType(factor(), Type::NUMERIC, p, ctx));
     default:
       break;
     }
@@ -320,13 +327,16 @@ Expression * ParseExpression::term()
       switch (t->code)
       {
       case '*':
-        result = new OpMULExpression(assertType(result, Type::NUMERIC, p, ctx, false), assertType(primary(), Type::NUMERIC, p, ctx));
+        assertType(result, Type::NUMERIC, p, ctx, false);
+        result = new OpMULExpression(result, assertType(primary(), Type::NUMERIC, p, ctx));
         break;
       case '/':
-        result = new OpDIVExpression(assertType(result, Type::NUMERIC, p, ctx, false), assertType(primary(), Type::NUMERIC, p, ctx));
+        assertType(result, Type::NUMERIC, p, ctx, false);
+        result = new OpDIVExpression(result, assertType(primary(), Type::NUMERIC, p, ctx));
         break;
       case '%':
-        result = new OpMODExpression(assertType(result, Type::NUMERIC, p, ctx, false), assertType(primary(), Type::NUMERIC, p, ctx));
+        assertType(result, Type::NUMERIC, p, ctx, false);
+        result = new OpMODExpression(result, assertType(primary(), Type::NUMERIC, p, ctx));
         break;
       default:
         done = true;
@@ -367,7 +377,8 @@ Expression * ParseExpression::sum()
         result = new OpADDExpression(result, assertType(term(), result->type(ctx), p, ctx));
         break;
       case '-':
-        result = new OpSUBExpression(assertType(result, Type::NUMERIC, p, ctx, false), assertType(term(), Type::NUMERIC, p, ctx));
+        assertType(result, Type::NUMERIC, p, ctx, false);
+        result = new OpSUBExpression(result, assertType(term(), Type::NUMERIC, p, ctx));
         break;
       default:
         done = true;
@@ -405,10 +416,12 @@ Expression * ParseExpression::bitshift()
       switch (t->code)
       {
       case TOKEN_POPLEFT:
-        result =  new OpPOPExpression(assertTypeUniform(result, Type::INTEGER, p, ctx, false), assertTypeUniform(sum(), Type::INTEGER, p, ctx));
+        assertTypeUniform(result, Type::INTEGER, p, ctx, false);
+        result = new OpPOPExpression(result, assertTypeUniform(sum(), Type::INTEGER, p, ctx));
         break;
       case TOKEN_PUSHRIGHT:
-        result = new OpPUSExpression(assertTypeUniform(result, Type::INTEGER, p, ctx, false), assertTypeUniform(sum(), Type::INTEGER, p, ctx));
+        assertTypeUniform(result, Type::INTEGER, p, ctx, false);
+        result = new OpPUSExpression(result, assertTypeUniform(sum(), Type::INTEGER, p, ctx));
         break;
       default:
         done = true;
@@ -446,13 +459,16 @@ Expression * ParseExpression::bitlogic()
       switch (t->code)
       {
       case '&':
-        result = new OpANDExpression(assertTypeUniform(result, Type::INTEGER, p, ctx, false), assertTypeUniform(bitshift(), Type::INTEGER, p, ctx));
+        assertTypeUniform(result, Type::INTEGER, p, ctx, false);
+        result = new OpANDExpression(result, assertTypeUniform(bitshift(), Type::INTEGER, p, ctx));
         break;
       case '|':
-        result = new OpIORExpression(assertTypeUniform(result, Type::INTEGER, p, ctx, false), assertTypeUniform(bitshift(), Type::INTEGER, p, ctx));
+        assertTypeUniform(result, Type::INTEGER, p, ctx, false);
+        result = new OpIORExpression(result, assertTypeUniform(bitshift(), Type::INTEGER, p, ctx));
         break;
       case '^':
-        result = new OpXORExpression(assertTypeUniform(result, Type::INTEGER, p, ctx, false), assertTypeUniform(bitshift(), Type::INTEGER, p, ctx));
+        assertTypeUniform(result, Type::INTEGER, p, ctx, false);
+        result = new OpXORExpression(result, assertTypeUniform(bitshift(), Type::INTEGER, p, ctx));
         break;
       default:
         done = true;
@@ -499,7 +515,10 @@ Expression * ParseExpression::relation()
       return new OpGTExpression(result, assertType(bitlogic(), result->type(ctx), p, ctx));
     case TOKEN_KEYWORD:
       if (t->text == Operator::OPVALS[Operator::OP_MATCH])
-        return new OpMATCHExpression(assertType(result, Type::LITERAL, p, ctx, false), assertType(bitlogic(), Type::LITERAL, p, ctx));
+      {
+        assertType(result, Type::LITERAL, p, ctx, false);
+        return new OpMATCHExpression(result, assertType(bitlogic(), Type::LITERAL, p, ctx));
+      }
       break;
     default:
       break;
@@ -536,19 +555,30 @@ Expression * ParseExpression::logic()
       {
       case TOKEN_KEYWORD:
         if (t->text == Operator::OPVALS[Operator::OP_BAND])
-          result = new OpBANDExpression(assertType(result, Type::BOOLEAN, p, ctx, false), assertType(relation(), Type::BOOLEAN, p, ctx));
+        {
+          assertType(result, Type::BOOLEAN, p, ctx, false);
+          result = new OpBANDExpression(result, assertType(relation(), Type::BOOLEAN, p, ctx));
+        }
         else if (t->text == Operator::OPVALS[Operator::OP_BIOR])
-          result = new OpBIORExpression(assertType(result, Type::BOOLEAN, p, ctx, false), assertType(relation(), Type::BOOLEAN, p, ctx));
+        {
+          assertType(result, Type::BOOLEAN, p, ctx, false);
+          result = new OpBIORExpression(result, assertType(relation(), Type::BOOLEAN, p, ctx));
+        }
         else if (t->text == Operator::OPVALS[Operator::OP_BXOR])
-          result = new OpBXORExpression(assertType(result, Type::BOOLEAN, p, ctx, false), assertType(relation(), Type::BOOLEAN, p, ctx));
+        {
+          assertType(result, Type::BOOLEAN, p, ctx, false);
+          result = new OpBXORExpression(result, assertType(relation(), Type::BOOLEAN, p, ctx));
+        }
         else
           done = true;
         break;
       case TOKEN_AND:
-        result = new OpBANDExpression(assertType(result, Type::BOOLEAN, p, ctx, false), assertType(relation(), Type::BOOLEAN, p, ctx));
+        assertType(result, Type::BOOLEAN, p, ctx, false);
+        result = new OpBANDExpression(result, assertType(relation(), Type::BOOLEAN, p, ctx));
         break;
       case TOKEN_OR:
-        result = new OpBIORExpression(assertType(result, Type::BOOLEAN, p, ctx, false), assertType(relation(), Type::BOOLEAN, p, ctx));
+        assertType(result, Type::BOOLEAN, p, ctx, false);
+        result = new OpBIORExpression(result, assertType(relation(), Type::BOOLEAN, p, ctx));
         break;
       default:
         done = true;
